@@ -77,6 +77,53 @@ pub fn run_case(c: &J) -> J {
                 }
                 answers.push(json!({"op": if skip { "skipped" } else { op }, "c": ci, "s": s, "e": e, "iv": iv, "vals": vals, "err": err}));
             }
+            "par" => {
+                // N readers obtained by reopen() from the current one, used AT THE SAME TIME from N threads (as the
+                // multi-threaded converters do): every answer is recorded and judged like a sequential one
+                let n = h["n"].as_u64().unwrap_or(4) as usize;
+                let rounds = h["rounds"].as_u64().unwrap_or(20) as usize;
+                let qs: Vec<(i64, i64, i64)> = h["qs"].as_array().unwrap().iter().map(|q| (q[0].as_i64().unwrap(), q[1].as_i64().unwrap(), q[2].as_i64().unwrap())).collect();
+                let mut handles = vec![];
+                for t in 0..n {
+                    let mut r = match &rd {
+                        Rd::Plain(r) => match r.reopen() { Ok(n) => Rd::Plain(n), Err(e) => return json!({"result": "reopenerr", "err": e.to_string()}) },
+                        Rd::Cached(r) => match r.reopen() { Ok(n) => Rd::Cached(n), Err(e) => return json!({"result": "reopenerr", "err": e.to_string()}) },
+                    };
+                    let qs = qs.clone();
+                    let cc = c.clone();
+                    handles.push(std::thread::spawn(move || {
+                        let mut ctx = Ctx::from(&cc);
+                        let mut out = vec![];
+                        for round in 0..rounds {
+                            for (k, (ci, s, e)) in qs.iter().enumerate() {
+                                if (k + round + t) % 2 == 1 { continue; }       // different threads interleave different queries
+                                let name = ctx.names[(*ci - 1) as usize].clone();
+                                let (ss, ee) = (ctx.pos_in(*s), ctx.pos_in(*e));
+                                let res: Result<Vec<bigtools::Value>, String> = match &mut r {
+                                    Rd::Plain(r) => r.get_interval(&name, ss, ee).map_err(|e| e.to_string()).and_then(|it| it.collect::<Result<Vec<_>, _>>().map_err(|e| e.to_string())),
+                                    Rd::Cached(r) => r.get_interval(&name, ss, ee).map_err(|e| e.to_string()).and_then(|it| it.collect::<Result<Vec<_>, _>>().map_err(|e| e.to_string())),
+                                };
+                                let mut iv = vec![];
+                                let mut err = 0;
+                                match res { Ok(v) => for x in v { iv.push(json!([ctx.pos_out(x.start), ctx.pos_out(x.end), ctx.val_out(x.value)])); }, Err(_) => err = 1 }
+                                out.push(json!({"op": "interval", "c": ci, "s": s, "e": e, "iv": iv, "vals": [], "err": err}));
+                            }
+                        }
+                        (out, ctx.unmapped)
+                    }));
+                }
+                answers.push(json!({"op": "reopen", "c": 0, "s": 0, "e": 0, "iv": [], "vals": [], "err": 0}));
+                for hd in handles {
+                    match hd.join() {
+                        Ok((out, um)) => {
+                            if um { ctx.unmapped = true; }
+                            // identical answers are recorded once (the judgement is per distinct answer)
+                            for a in out { if !answers.contains(&a) { answers.push(a); } }
+                        }
+                        Err(_) => answers.push(json!({"op": "interval", "c": 1, "s": 0, "e": 0, "iv": [], "vals": [], "err": 1})),
+                    }
+                }
+            }
             _ => panic!("bad op"),
         }
     }
